@@ -310,18 +310,19 @@ def run_case(case):
             # observed through the seam (a hard link replaced by a link to the same inode is invisible
             # to an inventory)
             changed = set()
+            origs = {os.path.join(rd.wb(), p_) for p_ in before}
             for ev in real.trace.mutating():
                 if ev.ret < 0:
                     continue
-                if op == "remove" and ev.kind == "unlink":
+                if op == "remove" and ev.kind == "unlink" and ev.path in origs:
                     changed.add(ev.path)
-                elif op in ("link", "softlink") and ev.kind == "rename" and ops.TEMP_RE.match(ev.path2) and ops.TEMP_RE.match(ev.path) is None:
+                elif op in ("link", "softlink") and ev.kind == "rename" and ev.path in origs and ops.temp_owner(ev.path2, origs) == ev.path:
                     changed.add(ev.path)
                 elif op == "move" and ev.kind == "rename" and ev.path2.startswith(os.path.join(rd.wb(), b"T")):
                     changed.add(ev.path)
                 elif op == "move" and ev.kind == "unlink":
                     changed.add(ev.path)
-                elif op == "dedupe" and ev.kind == "ficlone" and ops.TEMP_RE.match(ev.path) is None:
+                elif op == "dedupe" and ev.kind == "ficlone" and ev.path in origs:
                     changed.add(ev.path)
             if changed != exp:
                 V("real-run-equals-rule", "real run changed %s, documented rule drops %s" % (rel(changed), rel(exp)))
